@@ -1,6 +1,7 @@
 import SfntV.Prelude.Bytes
 import SfntV.Model.GNames
 import SfntV.Generated.GNames
+import SfntV.Generated.Cmapx
 
 /-! Line-protocol handlers for area `gnames` (C20). Names travel as hex of their bytes; a byte is
 mapped to the character with that code (names are only compared and extended by ASCII). -/
@@ -54,9 +55,13 @@ def parseGsub (s : String) : Option (List Sub) :=
   | some p => p.2
   | none => 0
 
-def parseCMap (s : String) : Option (Option CMap) :=
+/-- `mac = true`: the subtable is the Macintosh one (platform 1, encoding 0); the listed codes are
+MacRoman codes and the font's character map is their Unicode view (table regenerated from
+mac/encoding.go); entries for glyph 0 are not mappings -/
+def parseCMap (mac : Bool) (s : String) : Option (Option CMap) :=
   if s == "-" then some none else do
-    let ps ← parsePairs ":" s
+    let ps0 ← parsePairs ":" s
+    let ps := if mac then (ps0.filter (·.2 != 0)).map fun p => (Gen.macRomanTable.getD p.1 p.1, p.2) else ps0
     let codes := ps.map (·.1)
     let lo := codes.foldl min (codes.headD 0)
     let hi := codes.foldl max 0
@@ -81,7 +86,7 @@ def parseFont (fs : List (String × String)) : Option Font := do
   let names ← (getField fs "names").bind (parseNames nn)
   let kind ← getField fs "kind"
   let outl := if kind == "cff" then Outl.cff names else Outl.glyf n names
-  let cm ← (getField fs "cmap").bind parseCMap
+  let cm ← (getField fs "cmap").bind (parseCMap (getField fs "mac").isSome)
   let gsub ← (getField fs "gsub").bind parseGsub
   pure ⟨outl, cm, gsub⟩
 
@@ -245,6 +250,9 @@ def handle (op : String) (fs : List (String × String)) : String :=
     | _, _, _ => "bad-case"
   else if op == "gnames.readback" then
     -- direct check run by the harness on the real code (C20_install, C20_stable_again, C20_unique)
+    "ok"
+  else if op == "gnames.stable" then
+    -- direct check run by the harness on the real code: repeated calls agree (C20_stable_order, C20_stable_again)
     "ok"
   else if op == "gnames.cffstable" then
     -- direct check run by the harness on the real MakeSimple (valid, unique, stable)
